@@ -156,6 +156,25 @@ for _k, _v in {"C01": " c01.raw_operand: operands in the raw forms the construct
                "C11": " The Epoch time-of-day accessors are compared with the decomposition from the reference epoch onward only (before it the statement, which is about durations, does not decide between the two readings; round 7).",
                "C20": " from_time_of_week: every week 0..=8192 (thorough 131 072), a geometric scan of the rest, every day boundary and every hour of the first day of the week (round 7)."}.items():
     AUDIT2[_k] = AUDIT2.get(_k, "") + _v
+# round 8: interior scans (DESIGN.md §3.2, §6.5a)
+for _k in ["C%02d" % i for i in range(1, 21)]:
+    if _k not in ("C13",):
+        AUDIT2[_k] = AUDIT2.get(_k, "") + " Interior scans (<id>.scan_*): the same judge functions over 10^5-10^7 (thorough: up to 10^8) points of deterministic low-discrepancy streams of unremarkable values (whole range, +-100 centuries, per binade; calendar days x nanoseconds of day), for thresholds and digit conditions a change introduces away from every boundary of today's code (round 8)."
+for _k, _v in {"C02": " Every whole century of the range through the count constructors and the unit forms.",
+               "C06": " Provider files of 70 KB - 1 MB.",
+               "C07": " Phase anchors: zero crossings, extrema and whole-ms/us levels of both periodic terms (bisection on the reference form) +-0.5 s .. 2 h.",
+               "C08": " Structured times of day (whole hours / minutes / seconds / ms / us) on a day sub-lattice.",
+               "C09": " Structured times of day (whole hours / minutes / seconds / ms / us) on a day sub-lattice.",
+               "C10": " Numeric forms also written with 12, 20, 25 and 40 decimals.",
+               "C11": " c11.long_fraction: counts written with 9-80 decimals, rounded up or truncated from the exact quotient.",
+               "C12": " c12.scan_etdb: ET/TDB operands 101 ns .. 1 us from the other instant at every magnitude.",
+               "C13": " Inputs made of 8-4097 well-formed pieces; short unit / name texts parsed as the front part of a longer buffer must give the same verdict; day-of-year-first formats in the range clause (round 8).",
+               "C14": " Every small count of every unit as a step, tie probes k|s| + |s|/2 -2..+2 ns for every step, approx at the half-unit points.",
+               "C15": " Series of 9-90 million items with odd sub-second steps; for mixed-scale series either span reading is accepted only where the formula's count is the larger one.",
+               "C16": " Order menu over day numbers +-2^k and +-j x 2^16 days apart.",
+               "C17": " Unit-parameterised views in all nine units.",
+               "C19": " Order menu over every day of a calendar year (all ordered pairs)."}.items():
+    AUDIT2[_k] = AUDIT2.get(_k, "") + _v
 # order independence (DESIGN.md §1 Mode A')
 for _k in ["C%02d" % i for i in range(1, 21)]:
     AUDIT2[_k] = AUDIT2.get(_k, "") + " Order independence (<id>.order): every ordered pair of a menu of judged operations is run back to back on one thread and the second is judged; when the library sources contain shared mutable state (scanned on every run; none in the unchanged tree) the bound is raised to fresh-thread pairs, all 4-call sequences over a sub-menu, strided walks, repetitions, cross-API preludes and fresh-process runs."
